@@ -72,6 +72,9 @@ func TestPropC01(t *testing.T) {
 		for k := range lang.ShadowClasses(p.Body, p.ArgNames) {
 			names = append(names, k)
 		}
+		if g.Stats["lazy_list_read_behind_later_lets"] > 0 {
+			names = append(names, "lazy_list_read_behind_later_lets")
+		}
 		nt := reads >= 1 && p.Body.Mentions(p.ArgNames...)
 		evid.R.Case(nt, c.Text+"|"+c.Summary()["args"].(string), func() any { return c.Summary() }, names...)
 	})
